@@ -1,7 +1,7 @@
 #!/bin/bash
 # usage: tools/try_mutant.sh <patch.diff> <tier> <PROP>...   — apply a seeded change to /repo, run checks, always revert
 set -u
-patch="$1"; tier="$2"; shift 2
+patch="$(readlink -f "$1")"; tier="$2"; shift 2
 cd /repo || exit 2
 if ! git diff --quiet; then echo "repo dirty, refusing"; exit 2; fi
 git apply "$patch" || { echo "patch does not apply"; exit 2; }
